@@ -348,6 +348,10 @@ def check_doc(case):
     for p in paras:
         if p[0] == "F":
             labels.add("files:%d-pattern%s" % (min(len(p[1]), 3), "" if len(p[1]) == 1 else "s"))
+            if len(" ".join(p[1])) > 72:
+                labels.add("files:list-longer-than-72-chars")
+            if any(len(x) > 72 for x in p[1]):
+                labels.add("files:pattern-longer-than-72-chars")
             if "\n" in p[2]:
                 labels.add("copyright:multi-line")
             if p[2].startswith("\n"):
@@ -590,8 +594,16 @@ def gen_header(draw):
     return h
 
 
+# long lists / long patterns: what a writer that folds, wraps or truncates lines would trip over
+LONG_PATS = ["third-party/vendored-lib/*", "debian/patches/*-fix-something.patch", "src/a-b-c-d-e-f-g-h/*.c",
+             "doc/reference-manual/chapter-??/*.xml", "x" * 40 + "-" + "y" * 45 + "/*", "tests/data/*-expected-output.txt",
+             "po/*.po", "lib/really_long_directory_name_without_hyphens_at_all_for_seventy_five_characters/*",
+             "é-漢/*-ß", "a-b", "-leading-hyphen/*", "m4/*.m4"]
+pattern_list = st.one_of(st.lists(pattern, min_size=1, max_size=3), st.lists(pattern, min_size=1, max_size=3),
+                         st.lists(st.one_of(st.sampled_from(LONG_PATS), pattern), min_size=3, max_size=12),
+                         st.lists(st.sampled_from(LONG_PATS), min_size=1, max_size=4))
 files_para = st.builds(lambda f, c, l, m: ["F", f, c, l, m],
-                       st.lists(pattern, min_size=1, max_size=3), gen_value(2), gen_license(),
+                       pattern_list, gen_value(2), gen_license(),
                        st.one_of(st.none(), st.none(), gen_value(1)))
 license_para = st.builds(lambda l, m: ["L", l, m], gen_license(), st.one_of(st.none(), st.none(), gen_value(1)))
 
